@@ -3,6 +3,7 @@ package engine
 import (
 	"crypto/sha256"
 	"fmt"
+	repocommon "github.com/nspcc-dev/neofs-contract/common"
 	"os"
 	"path/filepath"
 	"regexp"
@@ -225,7 +226,7 @@ func (d *UpGrid) Eval(x *Exec, root *Node, gc GridCase) GridResult {
 			fail("version-window", fmt.Sprintf("update from version %d was accepted; supported: %d <= v < %d", c.V, d.prev, d.cur))
 		} else if df := DiffDumps(w.FullDump(before.L), w.FullDump(cur.L)); len(df) > 0 {
 			fail("refused-but-changed", fmt.Sprint(df))
-		} else if !strings.Contains(o.Fault, "previous version mismatch") && !strings.Contains(o.Fault, "contract is already of the latest version") {
+		} else if !strings.Contains(o.Fault, repocommon.ErrVersionMismatch) && !strings.Contains(o.Fault, repocommon.ErrAlreadyUpdated) {
 			fail("version-window", "refused, but not by the version check: "+o.Fault)
 		}
 	case pending:
